@@ -129,8 +129,11 @@ C10_BODIES = [[], EID1, EID7, EEMPTY, ENUL, ENOID, CUTID, PENDID, EID1 + ENOID, 
 def run_C10(ctx):
     agg = new_agg()
     q = ctx.quick
-    r = tlc_client(ctx, "ClientHeader", cfgs([0]), C10_BODIES, ["clean", "error", "errwrapeof"], ["transport", "stream"], 3 if q else 4, False)
+    r = tlc_client(ctx, "ClientHeader", cfgs([0]), C10_BODIES, ["clean", "error", "errwrapeof"], ["transport", "stream"], 3, False)
     drive_client(ctx, r.stdout_path, "header", "result,header,events", "whole,mid", agg)
+    if not q:
+        r = tlc_client(ctx, "ClientHeader4", cfgs([0]), C10_BODIES, ["clean", "error"], ["transport", "stream"], 4, False, timeout=3000)
+        drive_client(ctx, r.stdout_path, "header4", "result,header,events", "whole", agg)
     r = tlc_client(ctx, "ClientBody", cfgs([0, 2], body=("nil", "nobody", "getbody", "nogetbody", "failgetbody")),
                    [EID1, CUTID], ["clean", "error"], ["transport", "stream", "reject"], 3, False)
     drive_client(ctx, r.stdout_path, "body", "result,header,body", "whole", agg)
